@@ -279,6 +279,7 @@ class C13(PipelineCheck):
                         if got[:len(must)] != must or got != free[:len(got)] or any(s > fs for s, _ in got):
                             out.add('prefix-before-error', 'pipeline', {'got': got[:30], 'fault_free': free[:30], 'failing_event': fs})
         out.digest = '|'.join(dig)
+        out.states = tuple(ctx.extra.get('states', ()))
         parties = len(set(e['p'] for e in events))
         out.nontrivial = fired >= 1 and (parties >= 2 or len(events) >= 4)
         p['handler:' + handler] += 1
